@@ -98,4 +98,6 @@ def run(repo='/repo', tier='quick'):
     under = all(any(a == ('urlenp->decode_url_encoding', '!=', '0') for a, e in P.facts_at(g, b)) for b, i, c in g.calls('htp_tx_urldecode_params_inplace'))
     res.check(args == ['name', 'name', 'value'] and under, 'C15.c', 'assembler:decodes-name-and-value', 'name (both arms) and value are decoded when decoding is enabled', 'decoding is not applied to name and value under decode_url_encoding (%s)' % args, g.loc)
     res.assumptions.append('equality with the reference split / decoding is a statement about values and is not decided: the claim is thin')
+    from . import sentinel
+    sentinel.run(db, res, 'C15.d', lambda f: f.loc.startswith('htp/htp_urlencoded.c'), 1)
     return res
